@@ -316,7 +316,7 @@ func init() {
 		Level: "exploration",
 		Rule: "packages written by the harness' own writer (arbitrary prefixes / default namespace, hyperlinks internal and external, smart tags, tracked insertions, inline content controls, simple fields, tabs/breaks, tables with and without grid, nested tables, theme/fontTable/settings/webSettings/customXml with own rels/numbering/footnotes/comments/headers with own rels and images/docProps/thumbnail, media names of any pattern, unused Default entries, sparse and non-rId relationship ids) are opened and saved again, one third without edits, the rest after 1-8 append-only edits (paragraphs, images, headers/footers, list items, footnotes, footnote config, margins, headings). " +
 			"Oracle: every part outside {main part, content types, package rels, main part rels} is byte-identical unless an edit legitimately extends it (numbering/notes/settings/styles/header parts); content type per part unchanged; every relationship of every .rels part keeps id, type, target, mode; the concatenated w:t text of the main part is unchanged (no edit) or a prefix (append-only edits). Non-trivial: >=4 parts compared; distinct = features + edits.",
-		Cases:         func(t string) int { return tierN(t, 2400, 80000) },
+		Cases:         func(t string) int { return tierN(t, 8000, 80000) },
 		Run:           c04Case,
 		Assume:        []string{"formatting the reader does not model is outside this property; only text carried by runs and the package-level facts are protected", "edits are append-only so that the expected text is a prefix"},
 		CaseTimeoutS:  60,
